@@ -1037,6 +1037,18 @@ def class_of(f):
         elif c == ':' and head[i + 1] == ':' and depth == 0:
             cut = i
     cls = head[:cut] if cut >= 0 else ''
+    # drop a return type in front ("small_vector<..>& small_vector<..>::append<..>"): the class is what
+    # follows the last blank outside template brackets
+    depth = 0
+    sp = -1
+    for i, ch in enumerate(cls):
+        if ch in '<(':
+            depth += 1
+        elif ch in '>)':
+            depth -= 1
+        elif ch == ' ' and depth == 0:
+            sp = i
+    cls = cls[sp + 1:]
     k = cls.find('gch::small_vector<')
     return cls[k:] if k >= 0 else cls
 
@@ -1220,6 +1232,8 @@ class Spec(object):
             e['size'] = lin_sub(S0, DIST(0, 1))
         elif bn == 'clear' and k == ():
             e['size'] = L(0)
+        elif (bn == 'reserve' and k == ('n',)) or (bn == 'shrink_to_fit' and k == ()):
+            e['size'] = S0
         elif bn == 'resize' and k and k[0] == 'n':
             e['size'] = A(0)
         elif bn in ('assign', 'operator=', 'small_vector::small_vector', 'append'):
@@ -1332,6 +1346,8 @@ class Spec(object):
             return [(Z, lin_sub(E0, L(s)), ('old', Z))]
         if bn == 'clear' and k == ():
             return []
+        if (bn == 'reserve' and k == ('n',)) or (bn == 'shrink_to_fit' and k == ()):
+            return [(Z, E0, ('old', Z))]          # the same elements, wherever the buffer is afterwards
         if bn == 'swap' and len(k) == 1:
             return ('swap', self.cur['pos'][0])
         if bn in ('assign', 'small_vector::small_vector', 'operator=') :
